@@ -15,13 +15,13 @@ git -C /repo worktree add -q --detach $wt HEAD || { echo "{\"seed\":\"$name\",\"
 cd $wt
 run_demo() { # $1 = tag
   if [ "$kind" = lua ]; then
-    go build -ldflags=-checklinkname=0 -o /tmp/confirm/golua-$name-$1 . >>$log 2>&1 || return 99
+    go build ${SEED_TAGS:+-tags $SEED_TAGS} -ldflags=-checklinkname=0 -o /tmp/confirm/golua-$name-$1 . >>$log 2>&1 || return 99
     ( cd "$seed/demo" && timeout 180 /tmp/confirm/golua-$name-$1 $extra "$demo" ) > /tmp/confirm/$name-$1.out 2>&1
     echo $?
   else
     cp "$seed/demo/$demo" "$wt/$extra/" || return 98
     tn=$(grep -o 'func Test[A-Za-z0-9_]*' "$seed/demo/$demo" | head -1 | sed 's/func //')
-    timeout 600 go test -ldflags=-checklinkname=0 -vet=off -count=1 -run "^$tn\$" ./$extra/ > /tmp/confirm/$name-$1.out 2>&1
+    timeout 600 go test ${SEED_TAGS:+-tags $SEED_TAGS} -ldflags=-checklinkname=0 -vet=off -count=1 -run "^$tn\$" ./$extra/ > /tmp/confirm/$name-$1.out 2>&1
     rc=$?
     rm -f "$wt/$extra/$demo"
     echo $rc
